@@ -16,18 +16,18 @@ MAXT = int(os.environ.get('VERIF_FUZZ_MAX_SECONDS', '240'))
 B, T, R = 'fz_bytes', 'fz_tape', 'fz_reveal'
 PLAN = {
  'C01': [(B, None, 1024), (B, None, 65536), (T, 'wire', 900)],
- 'C02': [(B, None, 1024), (T, 'wire', 900), (T, 'reveal', 400), (R, None, 1100)],
+ 'C02': [(B, None, 1024), (T, 'wire', 900), (T, 'reveal', 400), (T, 'pertype-random', 1300), (R, None, 1400)],
  'C03': [(T, 'messages', 2500), (T, 'avps', 1200)],
  'C04': [(T, 'data', 300)],
  'C05': [(B, None, 1024), (T, 'wire', 900), (T, 'noncanon', 900), (T, 'records', 700)],
  'C06': [(T, 'avps', 1200), (T, 'control', 2500), (T, 'data', 300)],
- 'C07': [(T, 'messages', 2500), (T, 'avps', 1200), (T, 'oversize-avp', 300), (T, 'hide-limits', 300)],
+ 'C07': [(T, 'messages', 2500), (T, 'avps', 1200), (T, 'oversize-avp', 300), (T, 'hide-limits', 300), (T, 'after-refusal', 2500)],
  'C08': [(T, 'suffix', 1500), (T, 'sequence', 2500), (T, 'records', 900)],
  'C09': [(T, 'sequences', 2500)],
  'C10': [(B, None, 1024), (T, 'noncanon', 900), (T, 'wire', 900)],
- 'C11': [(T, 'hide-reveal', 1500)],
- 'C12': [(T, 'forward', 1500), (T, 'backward', 500), (R, None, 1100)],
- 'C13': [(R, None, 1100), (T, 'hidden', 1200)],
+ 'C11': [(T, 'hide-reveal', 1500), (T, 'related-secrets', 1500)],
+ 'C12': [(T, 'forward', 1500), (T, 'backward', 500), (T, 'related-secrets', 1500), (R, None, 1100)],
+ 'C13': [(R, None, 1400), (T, 'hidden', 1200), (T, 'related-secrets', 1500)],
  'C14': [(B, None, 1024), (T, 'wire', 900)],
  'C15': [(T, 'faults', 1500)],
  'C17': [(T, 'randomwords', 24)],
